@@ -14,6 +14,8 @@
     Funcs/Tpl    the generic SkipDecoderTpl.Skip over an abstract SkipN back end = skipTplAt, and its three instances (C02 C03 C08)
     Funcs/TTHDecode  ttheader.Decode over an abstract bufiox.Reader = decodeG, instances decodeRd / decodeCur (C03 C06 C10)
     Funcs/StreamW    the 14 BufferWriter.Write* over an abstract bufiox.Writer = Wire.bw* over the log model (C01 C12)
+    Funcs/StreamR    the 17 BufferReader read methods (next, readBinary, skipn, Readn, 13 readers) over the reader model as a ReaderI
+                     = brNext, brSkipn, Wire.brRead* (C01 C03 C12 C17)
     Funcs/StreamSkip BufferReader.next/skipn/skipstr/skipType/Skip over the reader model as a ReaderI (Funcs/RdI) = brNext, brSkipn,
                      brSkipStr, skipBRAt, skipBR (C02 C03 C08 C17)
     Funcs/Dec        BytesSkipDecoder.SkipN/Reset/Next = bytesBackend / bytesDecNext; SkipDecoder.SkipN/Next over the reader model
@@ -29,6 +31,7 @@ import Verif.Lemmas.Funcs.Fc
 import Verif.Lemmas.Funcs.Tpl
 import Verif.Lemmas.Funcs.TTHDecode
 import Verif.Lemmas.Funcs.StreamW
+import Verif.Lemmas.Funcs.StreamR
 import Verif.Lemmas.Funcs.StreamSkip
 import Verif.Lemmas.Funcs.Dec
 namespace Verif.FuncsEq
